@@ -30,7 +30,7 @@ neutral-atom quantum emulators for Pulser sequences: packages emu_base, emu_mps,
 worktree of the project at {wt} (detached HEAD). Work ONLY there. Never read or write anything under /repo or /verif.
 Python is /venv/bin/python; the packages are otherwise importable from /repo, so ALWAYS run with
 PYTHONPATH={wt} and verify once with `cd {wt} && PYTHONPATH={wt} /venv/bin/python -c "import emu_mps, emu_sv, emu_base; print(emu_mps.__file__)"`.
-There is no network. Keep CPU use moderate: export OMP_NUM_THREADS=4 MKL_NUM_THREADS=4 for everything you run.
+There is no network. Keep CPU use moderate: export OMP_NUM_THREADS=2 MKL_NUM_THREADS=2 for everything you run.
 
 THE PROPERTY ({pid}): {p['title']}
 Statement: {p['statement']}
@@ -43,8 +43,8 @@ tests) of the kind that could plausibly slip through code review -- a refactor, 
 argument, a dropped special case, a changed default... -- such that
 
  1. the project still imports and the EXISTING test suite still passes with your change
-    (cd {wt} && OMP_NUM_THREADS=4 PYTHONPATH={wt} /venv/bin/python -m pytest -q -p no:cacheprovider --timeout=900 ;
-    it takes 2-10 minutes; run the relevant test files while iterating and the whole suite once at the end;
+    (cd {wt} && OMP_NUM_THREADS=2 PYTHONPATH={wt} /venv/bin/python -m pytest -q -p no:cacheprovider --timeout=900 ;
+    it takes 2-10 minutes; run only the relevant test files while iterating and the whole suite ONCE at the end (other agents share the machine);
     test/emu_mps/test_end_to_end.py::test_XY_3atoms and ::test_XY_3atomswith_slm already fail on the unchanged code:
     ignore exactly these two);
  2. the property above is violated for some inputs: write {wt}/demo.py, a stand-alone script using only the public
